@@ -135,7 +135,7 @@ pub(crate) fn state_execs() {
 
 /// replace_state_field!: sets the new value, restores the OLD value (not `false`) when the guard
 /// is dropped, nests correctly, touches nothing else.
-//@ C12 C07 | complete | deciding | feat=full,std | fn=State::set_dropping
+//@ C12 C07 C08 C05 | complete | deciding | feat=full,std | fn=State::set_dropping
 #[kani::proof]
 pub(crate) fn state_replace_guard() {
     let s = any_state();
